@@ -46,8 +46,7 @@ def _plans(ctx):
     src = _sources(ctx)
     if not ctx.thorough:
         return [('bfs3', src, L.DEFAULT_OPS, 3)]
-    small = [('s', ''), ('s', 'a'), ('s', 'ab'), ('s', 'abc'), ('t', []), ('t', ['ab']), ('t', ['a', 'b']),
-             ('t', ['ab', 'c']), ('t', ['a', 'bc', 'a'])]
+    small = [('s', ''), ('s', 'ab'), ('s', 'abc'), ('t', ['ab']), ('t', ['ab', 'c']), ('t', ['a', 'bc', 'a'])]
     return [('bfs3', src, L.DEFAULT_OPS, 3), ('bfs4', small, L.DEFAULT_OPS, 4), ('bfs5-core', src, L.CORE_OPS, 5)]
 
 
